@@ -70,6 +70,21 @@ def undeclared_names(value, text):
     return sorted(out)
 
 
+def bound_index_mismatch(value, text):
+    """sums / products over an index: the index names written under \\sum / \\prod in the rendering are exactly the indices the expression sums
+    over (read as mathematics, `\\sum_i I_k` is n I_k, not the sum of the I_k)"""
+    import re
+    if not isinstance(value, sp.Basic):
+        return None
+    nodes = [n for n in sp.preorder_traversal(value) if type(n).__name__ in ("IndexedSum", "IndexedProduct")]
+    if not nodes:
+        return None
+    norm = lambda z: str(z).replace("{", "").replace("}", "").replace("\\", "").strip()
+    want = sorted({norm(n.args[1]) for n in nodes})
+    got = sorted({norm(m) for m in re.findall(r"\\(?:sum|prod)_\{?\s*([A-Za-z]+(?:_\{?\w+\}?)?)", text)})
+    return None if want == got else f"the expression sums over {want}, the rendering writes {got} under its sum / product signs"
+
+
 def check_file(relpath):
     from symplyphysics.docs.parse import LawDirectiveType
     out = []
@@ -100,6 +115,10 @@ def check_file(relpath):
                         "text": text, "vals": None})
             continue
         out.append({"name": name + ":display-names", "verdict": "discharged", "trivial": True})
+        bi = bound_index_mismatch(m.value, text)
+        if bi:
+            out.append({"name": name, "verdict": "candidate", "why": bi, "file": relpath, "member": m.name, "text": text, "vals": None})
+            continue
         if isinstance(m.value, (list, tuple)):
             out.append({"name": name, "verdict": "unencoded", "why": "list-valued member"})
             continue
@@ -151,7 +170,7 @@ relpath, member = {file!r}, {member!r}
 res = [r for r in c18.check_file(relpath) if r.get("member") == member and r["verdict"] == "candidate"]
 for r in res: print(r["name"], "rendering:", r.get("text"), "->", r["why"], r.get("vals"))
 if not res: sys.exit(0)
-if any("ill-formed" in r["why"] or "raised" in r["why"] or "adjacent numerals" in r["why"] or "display names" in r["why"] for r in res):
+if any("ill-formed" in r["why"] or "raised" in r["why"] or "adjacent numerals" in r["why"] or "display names" in r["why"] or "sum / product signs" in r["why"] for r in res):
     print("REPRODUCED"); sys.exit(1)
 members, _ = docsrc.members_of(relpath)
 m = [x for x in members if x.name == member][0]
@@ -204,7 +223,7 @@ def run(ctx):
             x, y = rng.choice(d2), rng.choice(pool)
             op = rng.choice(["mul", "div", "div", "pow", "sub"])
             d3.append((op, x, y) if rng.random() < 0.5 else (op, y, x))
-    items = [(r, True) for r in d1 + d2 + d3]
+    items = [(r, True) for r in d1 + d2 + d3 + c17.numeric_sum_trees()]
     files = docsrc.source_files()
     ctx.explanation = (
         "Engine S + independent LaTeX reader. Same programs as C17 (canonical trees; every :laws:latex:: member of every catalogue module in "
